@@ -14,10 +14,13 @@
 package jws
 
 import (
+	"bytes"
 	"crypto/x509"
 	"encoding/base64"
 	"encoding/json"
+	"errors"
 	"fmt"
+	"io"
 
 	"github.com/golang-jwt/jwt/v4"
 	"github.com/notaryproject/notation-core-go/internal/timestamp"
@@ -76,7 +79,7 @@ func (e *envelope) Sign(req *signature.SignRequest) ([]byte, error) {
 	// parse payload as jwt.MapClaims
 	// [jwt-go]: https://pkg.go.dev/github.com/dgrijalva/jwt-go#MapClaims
 	var payload jwt.MapClaims
-	if err = json.Unmarshal(req.Payload.Content, &payload); err != nil {
+	if err = decodePayload(req.Payload.Content, &payload); err != nil {
 		return nil, &signature.InvalidSignRequestError{
 			Msg: fmt.Sprintf("payload format error: %v", err.Error())}
 	}
@@ -207,6 +210,20 @@ func (e *envelope) signerInfo(protected *jwsProtectedHeader) (*signature.SignerI
 	signerInfo.UnsignedAttributes.SigningAgent = e.base.Header.SigningAgent
 	signerInfo.UnsignedAttributes.TimestampSignature = e.base.Header.TimestampSignature
 	return &signerInfo, nil
+}
+
+// decodePayload decodes the JSON payload keeping numbers in their exact
+// textual form, so that re-encoding the claims does not alter them.
+func decodePayload(content []byte, payload *jwt.MapClaims) error {
+	decoder := json.NewDecoder(bytes.NewReader(content))
+	decoder.UseNumber()
+	if err := decoder.Decode(payload); err != nil {
+		return err
+	}
+	if _, err := decoder.Token(); err != io.EOF {
+		return errors.New("invalid character after top-level value")
+	}
+	return nil
 }
 
 // sign the given payload and headers using the given signature provider.
